@@ -2,7 +2,9 @@ package c_crypto
 
 import (
 	"bytes"
+	"crypto/sha256"
 	"fmt"
+	"math/big"
 	"testing"
 
 	"github.com/gotd/td/bin"
@@ -53,13 +55,41 @@ func TestC06(t *testing.T) {
 		).Draw(t, "plainLen")
 		plain := drawBytes(t, "plain", n)
 		rk := [256]byte(ak.Value)
+		// the derivations do not run alone in the process: between them the same
+		// goroutine uses the package's other helpers (hashing in several chunks,
+		// as the obfuscated transport's key setup does, nonce hashes, temporary
+		// keys). Whatever those leave behind (pooled hashers, scratch buffers)
+		// must not show in the next derivation.
+		neighbour := rapid.SampledFrom([]string{"none", "none", "sha256x1", "sha256x2", "sha256x3", "temp-aes-keys", "nonce-hash"}).Draw(t, "neighbour")
+		nb := drawBytes(t, "neighbourData", 96)
+		disturb := func() {
+			switch neighbour {
+			case "sha256x1", "sha256x2", "sha256x3":
+				chunks := [][]byte{nb[:32], nb[32:64], nb[64:]}[:int(neighbour[7]-'0')]
+				var all []byte
+				for _, c := range chunks {
+					all = append(all, c...)
+				}
+				if got, want := crypto.SHA256(chunks...), sha256.Sum256(all); !bytes.Equal(got, want[:]) {
+					t.Fatalf("crypto.SHA256 over %d chunks: got %x want %x", len(chunks), got, want)
+				}
+			case "temp-aes-keys":
+				crypto.TempAESKeys(new(big.Int).SetBytes(nb[:32]), new(big.Int).SetBytes(nb[32:48]))
+			case "nonce-hash":
+				var nn bin.Int256
+				copy(nn[:], nb[:32])
+				crypto.NonceHash1(nn, ak.Value)
+			}
+		}
 
 		for _, side := range []crypto.Side{crypto.Client, crypto.Server} {
 			fromServer := side == crypto.Server
+			disturb()
 			// msg_key over arbitrary plaintext (v2)
 			if got, want := crypto.MessageKey(ak.Value, plain, side), ref.MsgKeyV2(rk, plain, fromServer); [16]byte(got) != want {
 				t.Fatalf("MessageKey side=%d len=%d: got %x want %x", side, n, got[:], want[:])
 			}
+			disturb()
 			gk, gi := crypto.Keys(ak.Value, msgKey, side)
 			wk, wi := ref.KDFv2(rk, [16]byte(msgKey), fromServer)
 			if [32]byte(gk) != wk || [32]byte(gi) != wi {
@@ -89,7 +119,7 @@ func TestC06(t *testing.T) {
 			t.Fatalf("aux_hash mismatch")
 		}
 		h := fmt.Sprintf("%x/%x/%d/%x", ak.ID, msgKey[:], n, trunc24(plain))
-		st.Case(h, true, fmt.Sprintf("keyid=%x msgkey=%s plain=%d", ak.ID, hexShort(msgKey[:]), n), keyClass, mkClass, fmt.Sprintf("plain%%64=%d", n%64/16*16))
+		st.Case(h, true, fmt.Sprintf("keyid=%x msgkey=%s plain=%d", ak.ID, hexShort(msgKey[:]), n), keyClass, mkClass, fmt.Sprintf("plain%%64=%d", n%64/16*16), "neighbour:"+neighbour)
 	})
 }
 
